@@ -62,7 +62,9 @@ async def main():
     async def spy(*a, **kw):
         p = await orig(*a, **kw)
         obs["pids"].append(p.pid)
+        procs.append(p)
         return p
+    procs = []
     anyio.open_process = spy
 
     if case["behaviour"] == "unstartable":
@@ -194,7 +196,7 @@ async def main():
             if case.get("idle"):
                 await asyncio.sleep(case["idle"])   # the application does something else and reads nothing meanwhile
             ex = case["exit"]
-            if ex == "normal":
+            if ex in ("normal", "native_cancel_at_child_death"):
                 marks["exit_start"] = time.monotonic()
                 return
             if ex == "exception":
@@ -212,7 +214,23 @@ async def main():
     ex = case["exit"]
     t_enter = time.monotonic()
     try:
-        if ex == "cancel":
+        if ex == "native_cancel_at_child_death":
+            # the body leaves normally; a native cancellation of the task arrives the moment the child is known to have
+            # died - inside the shutdown, between the end of the grace period and the release of the pipes
+            t = asyncio.create_task(body())
+            while not procs and not t.done():
+                await asyncio.sleep(0)
+            while procs and procs[-1].returncode is None and not t.done():
+                await asyncio.sleep(0)
+            obs["cancel_landed_in_shutdown"] = not t.done()
+            marks["exit_start"] = time.monotonic()
+            t.cancel()
+            try:
+                await t
+                obs["body_outcome"] = "returned"
+            except asyncio.CancelledError:
+                obs["body_outcome"] = "cancelled"
+        elif ex == "cancel":
             t = asyncio.create_task(body())
             due = time.monotonic() + case.get("cancel_after", 0.6)
             await asyncio.sleep(case.get("cancel_after", 0.6))
